@@ -50,7 +50,7 @@ PROPS = {
              "is excluded (the Go code divides by zero: outside the statement's domain). Non-trivial = the logical stream wrapped around the "
              "end of the buffer at least once; distinct by input line.",
         nontrivial=["wrap"],
-        lean_files=["C18", "RingPackets", "C18Len"],
+        lean_files=["C18", "RingPackets", "C18Len", "ComposeRing"],
         jobs=seeds(1, 6),
         trusted_base=["uint64 pointers modelled as Nat (guard < 2^64)", "mmap / POSIX shm; single-threaded use of the two handles"],
         assumptions=["writer and reader are not concurrent in the correspondence run (the property is about op sequences)"],
